@@ -2,6 +2,7 @@ import EaselModel.Ssi.Reader
 import EaselModel.Ssi.History
 import EaselModel.Ssi.Auto
 import EaselModel.Ssi.Robust
+import EaselModel.Ssi.Trunc
 /-! # C06 — property theorems (statements + glue only; lemmas live in Ssi/*.lean)
 
 `ns : NewSsi` is the model of the `ESL_NEWSSI` under construction, `ns.WF` says it is what the `esl_newssi_Add*`
@@ -300,6 +301,27 @@ theorem findSubseq_any_index (d : Array UInt8) (s : Ssi) (ho : Ssi.open d = .ok 
     (s.findName key = .error e) ∨ e = .erange ∨ e = .eformat ∨ e = .einval :=
   findSubseq_status s ((open_status d).2 s ho).2.2.1 key start e h
 
+/-- **a TRUNCATED index never answers with a wrong record.** Cut the file `Write` produced after ANY number of bytes: if
+    `Open` still accepts it and `FindName` answers `eslOK` for some string, the numbers are exactly those stored for that
+    string — its own record when it is a primary key, its target's when it is an alias. (Every other answer is
+    `eslENOTFOUND` / `eslEFORMAT`: `findName_no_fault`.) -/
+theorem truncated_index_never_wrong (ns : NewSsi) (h : ns.WF) (cur : Option Bytes) (bytes : Bytes)
+    (hw : (ns.write cur).2.2 = some bytes) (htg : ∀ a ∈ ns.skeys, ∃ k ∈ ns.pkeys, a.pkey = k.key)
+    (n : Nat) (s' : Ssi) (ho : Ssi.open (bytes.take n).toArray = .ok s') (key : Bytes) (hit : Hit)
+    (hf : s'.findName key = .ok hit) :
+    ∃ k ∈ ns.pkeys, hit = ⟨k.fnum, k.roff, k.doff, k.len⟩ ∧ (k.key = key ∨ ∃ a ∈ ns.skeys, a.key = key ∧ a.pkey = k.key) := by
+  obtain ⟨hd, rfl⟩ := written_file ns h cur bytes hw
+  have hsub := sub_take ns.image n
+  have hopen := hsub.mono_open s' ho
+  rw [open_image h] at hopen
+  have e : ns.opened = { s' with data := ns.image.toArray } := by injection hopen
+  have hdata : s'.data = (ns.image.take n).toArray := ((open_status _).2 s' ho).1
+  have g : SameGeometry s' ns.opened :=
+    { sub := by rw [hdata]; exact hsub
+      offsz := by rw [e], nprimary := by rw [e], nsecondary := by rw [e], plen := by rw [e], slen := by rw [e],
+      precsize := by rw [e], srecsize := by rw [e], poffset := by rw [e], soffset := by rw [e] }
+  exact resolves_image h hd htg key hit (g.resolves key hit (findName_sound s' FUEL key hit hf))
+
 /-! ## `esl_newssi_AddFile` and duplicate names -/
 
 /-- `AddFile` never looks at the names already registered ("Caller should make sure that the same file isn't registered
@@ -465,5 +487,18 @@ theorem cross_class_duplicate_rejected :
   · rw [write_toExternal exCross exCross_wf (by constructor <;> simp [exCross, KeyChars, NoDelim, isDelim])]
     have := write_dup_no_file exCross exCross_wf (some []) (by decide)
     exact Prod.ext this.1 this.2
+
+/-- a two-key index cut in the middle of its last primary record (130 of its 154 bytes): non-vacuity of
+    `truncated_index_never_wrong` — `Open` still accepts it (cut inside the file section, at 95, it does not); with
+    `n ≥ 154` the hypothesis `hf` is `findName_stored` -/
+def exTrunc : NewSsi :=
+  { files := [{ name := [102], fmt := 1, bpl := 0, rpl := 0 }], flen := 2,
+    pkeys := [⟨[107, 49], 0, 1, 2, 3⟩, ⟨[107, 50], 0, 4, 5, 6⟩], plen := 3, nprimary := 2 }
+
+example : exTrunc.WF := by constructor <;> decide
+example : (match Ssi.open (exTrunc.image.take 130).toArray with | .ok s => s.nprimary == 2 | .error _ => false) = true := by
+  decide +kernel
+example : (match Ssi.open (exTrunc.image.take 95).toArray with | .ok _ => false | .error e => e == .eformat) = true := by
+  decide +kernel
 
 end EaselModel.Props.C06
